@@ -4,9 +4,13 @@ correspond: for every exactly representable operator class and for random expres
   (depth <= 4) the implementation's matrices of A, A.H (and A.N, used by C04) are extracted with
   basis vectors and compared with the matrices the Lean model computes for `denote e`,
   `denote (adj e)`, `denote (normal e)`; plus A(x) == M x on Gaussian-integer x.
-proved (Lean): the adjoint algebra and, for every exactly representable leaf class except MatMul/RightMatMul, the
-  leaf pairing itself for all valid symbolic parameters (Props/C01Leaves.lean: `adj_denote_leaves`), so that for
-  trees over those classes <A x, y> = <x, A.H y> is a theorem about the model without a leaf hypothesis.
+proved (Lean): the adjoint algebra and, for every exactly representable leaf class (MatMul/RightMatMul included:
+  Props/C01MatMul.lean), the leaf pairing itself for all valid symbolic parameters (`adj_denote_leaves`), so that for
+  trees over those classes <A x, y> = <x, A.H y> is a theorem about the model without a leaf hypothesis; the adjoint
+  rules of the model are proved equal to the translation of every `_adjoint_linop` of linop.py (Gen/LinopAdjoint.lean,
+  Props/C01Gen.lean: `adj_denote_gen`); ConvolveData/Filter(+Adjoint) in 1-D and FFT/IFFT come in as `ext` leaves
+  whose entries are taken from the C08 / C05 models through the generated pairing table (Props/C01Ext, C01Fft);
+  FiniteDifference's tree is generated from the factory and compared with the real factory.
 search: the dot test <Ax,y> == <x,A.H y>, swapped shapes, A.H.H(x) == A(x) on the real objects,
   over all Linop classes, the MRI factories and random trees (exact on Gaussian integers where the
   arithmetic is exact, 1e-6 relative for FFT / NUFFT / wavelet / convolution leaves).
